@@ -55,18 +55,36 @@ def main():
             code = ("import sys, json, pytask\nfrom pathlib import Path\n"
                     f"s = pytask.build(paths=[Path({str(proj)!r})])\n"
                     "print(json.dumps({'exit': int(s.exit_code), 'out': [(r.task.name, r.outcome.name) for r in s.execution_reports]}))\n")
-            runs = []
-            for k in range(2):
+            def render(items):
+                lines = ["from typing import Annotated", "from pathlib import Path", "import json", "from config import *", ""]
+                for j, (ci, ename, val) in enumerate(items):
+                    lines += [f"def task_p{j}() -> Annotated[object, cat{ci}[{ename!r}]]:", f"    return {val}", ""]
+                    lines += [f"def task_c{j}(x: Annotated[object, cat{ci}[{ename!r}]], out: Annotated[Path, __import__('pytask').Product] = Path(__file__).parent / 'out{j}.json'):",
+                              f"    out.write_text(json.dumps(repr(x)))", ""]
+                return "\n".join(lines)
+
+            def build_once():
                 p = subprocess.run([sys.executable, "-c", code], capture_output=True, text=True, cwd=proj)
                 try:
-                    runs.append(json.loads(p.stdout.strip().splitlines()[-1]))
+                    return json.loads(p.stdout.strip().splitlines()[-1])
                 except Exception:  # noqa: BLE001
-                    runs.append({"exit": -1, "stderr": p.stderr[-1500:], "stdout": p.stdout[-1500:]})
-            outs = []
-            for j in range(len(vals["items"])):
-                f = proj / f"out{j}.json"
-                outs.append(json.loads(f.read_text()) if f.exists() else None)
+                    return {"exit": -1, "stderr": p.stderr[-1500:], "stdout": p.stdout[-1500:]}
+
+            def outs_now(n):
+                o = []
+                for j in range(n):
+                    f = proj / f"out{j}.json"
+                    o.append(json.loads(f.read_text()) if f.exists() else None)
+                return o
+            runs = [build_once(), build_once()]
+            outs = outs_now(len(vals["items"]))
             res["roundtrip"] = {"runs": runs, "outs": outs}
+            if vals.get("items2"):
+                # the producers now return other values (some equal under == but of another type)
+                (proj / "task_rt.py").write_text(render(vals["items2"]))
+                runs2 = [build_once()]
+                res["roundtrip"]["runs2"] = runs2
+                res["roundtrip"]["outs2"] = outs_now(len(vals["items2"]))
     finally:
         shutil.rmtree(d, ignore_errors=True)
     json.dump(res, sys.stdout)
